@@ -193,6 +193,9 @@ func (ex *Exec) mergeArrivals(arrs []arrival, J *ssa.BasicBlock, pre *State, bas
 		st.mem.arrs[s] = m
 	}
 	// region counter, map keys
+	for _, a := range arrs[1:] {
+		st.foreign = append(st.foreign, a.st.foreign...)
+	}
 	for _, a := range arrs {
 		if *a.st.nextRg > *st.nextRg {
 			*st.nextRg = *a.st.nextRg
